@@ -28,21 +28,67 @@ type c16KV struct {
 const c16Repeats = 50
 
 var c16KeyRe = regexp.MustCompile(`^[A-Za-z0-9_-]+(\.[A-Za-z0-9_-]+)*$`)
-var c16ValRe = regexp.MustCompile(`^[A-Za-z0-9_.-]*$`)
+
+// Values that need no escaping in the properties format: no backslash, no whitespace, no line
+// break, no '=' / ':' / '#' / '!'. The characters '$', '{' and '}' are ordinary value characters
+// of the format (the magiconair library gives "${key}" a meaning only in its Get* accessors, which
+// the codec never uses), so they belong to the domain of the round-trip clauses.
+var c16ValRe = regexp.MustCompile(`^[A-Za-z0-9_.${}-]*$`)
 
 func init() {
 	register(&Prop{ID: "C16", Run: c16Run,
-		Rule: "key sets built from a pool of 8 path-safe segments, 1-4 segments per key, 0-8 keys; three streams: prefix-free sets (conflicting keys removed), sets with deliberately added dotted prefixes / extensions of present keys, unconstrained sets; values from a pool of strings over [A-Za-z0-9_.-] incl. the empty string; line order of the rendered text shuffled. Thorough tier adds all 128 subsets of {a, b, a.b, a.c, a.b.c, b.a, a.b.c.d} in two line orders. A case is non-trivial when it has at least two keys and at least one key with two or more segments; distinct = distinct canonical case JSON (hash).",
+		Rule: "key sets built from a pool of 14 path-safe segments, several of which are proper string prefixes of others (a, ab, abc, a1, a-b, k, k1 …; the same pool at every level, so that sibling segments related by string prefix but not by dotted prefix are frequent), 1-4 segments per key, 0-8 keys; three streams: prefix-free sets (conflicting keys removed), sets with deliberately added dotted prefixes / extensions of present keys, unconstrained sets; values from a pool of strings over [A-Za-z0-9_.-] incl. the empty string, and in one case out of three also values over [A-Za-z0-9_.${}-] shaped like placeholder expressions: ${key} naming the own key, another key of the set, an undefined key, rings of keys naming each other, nested and repeated ${…}, unclosed ${, and stray $ { } characters; line order of the rendered text shuffled. Thorough tier adds all 128 subsets of {a, b, a.b, a.c, a.b.c, b.a, a.b.c.d} and of {a.b, a.b.x, a.bc, a-b.x, a1, ab.x, abc} in two line orders. A case is non-trivial when it has at least two keys and at least one key with two or more segments; distinct = distinct canonical case JSON (hash).",
 		Assumptions: []string{
-			"magiconair/properties agrees with the reference k=v line parser (Props.parseSimple) on keys over [A-Za-z0-9_.-] and values over [A-Za-z0-9_.-]* (validated by the corr:C16.parse comparison on every case, not proved)",
+			"magiconair/properties agrees with the reference k=v line parser (Props.parseSimple) on keys over [A-Za-z0-9_.-] and values over [A-Za-z0-9_.${}-]* — raw values as returned by Map(), whatever its ${…} expansion self-check says (validated by the corr:C16.parse comparison on every case, not proved)",
 			"key segments are non-empty and over [A-Za-z0-9_-] (no segment ends in an index group, so AddValueAt treats every segment as a plain child name)",
 			"values are plain strings that need no escaping in the properties format"}})
 	evals["C16"] = c16Eval
-	shrinkers["C16"] = shrinkJSON
+	shrinkers["C16"] = c16Shrink
 }
 
-var c16Segs = []string{"a", "b", "c", "k1", "x-y", "z_9", "A", "0"}
+// Segment pool: the early (most often drawn) entries are related by string prefix — "a" < "ab" <
+// "abc", "a" < "a1", "a" < "a-b", "k" < "k1" — without being related by dotted prefix, and they
+// fall on both sides of '.' in byte order ('-' < '.' < '0'), so that in sorted key order a sibling
+// such as "ab" or "a1" follows the subtree of "a" while "a-b" precedes it.
+var c16Segs = []string{"a", "ab", "b", "abc", "a1", "a-b", "k", "k1", "c", "x-y", "z_9", "A", "0", "x-"}
 var c16Vals = []string{"", "1", "2", "x", "true", "v_1", "a-b", "x.y", "007", "Zz"}
+
+// values that are not placeholder expressions but contain their characters
+var c16Stray = []string{"$", "}", "{", "$}", "}{", "$$", "a$b", "{a}", "$a", "${}", "}$", "$.{", "1}", "{-"}
+
+// c16Undefined are dotted names that are never keys of a generated set (segments outside the pool).
+var c16Undefined = []string{"nokey", "u.v", "a.undefined", "NO_SUCH_KEY_9"}
+
+func c16Wrap(r *rand.Rand, s string) string {
+	if r.Intn(2) == 0 {
+		s = pick(r, []string{"x", "1-", "v_", "."}) + s
+	}
+	if r.Intn(2) == 0 {
+		s += pick(r, []string{"y", ".0", "-z", "_"})
+	}
+	return s
+}
+
+// c16ExprVal draws a value containing placeholder syntax for the key `self` of the set `keys`.
+func c16ExprVal(r *rand.Rand, keys []string, self string) string {
+	other := func() string { return keys[r.Intn(len(keys))] }
+	switch r.Intn(9) {
+	case 0: // names its own key
+		return c16Wrap(r, "${"+self+"}")
+	case 1, 2: // names a key of the set (possibly itself, possibly closing a ring)
+		return c16Wrap(r, "${"+other()+"}")
+	case 3: // names a key that is not defined
+		return c16Wrap(r, "${"+pick(r, c16Undefined)+"}")
+	case 4: // opened, never closed
+		return c16Wrap(r, "") + "${" + pick(r, []string{"", "a", self, other(), "x.y"})
+	case 5: // two expressions
+		return "${" + other() + "}" + pick(r, []string{"", "-", "."}) + "${" + pick(r, []string{other(), self, pick(r, c16Undefined)}) + "}"
+	case 6: // nested / doubled prefix
+		return pick(r, []string{"${${" + other() + "}}", "$${" + other() + "}", "${" + other() + "}}", "{${" + other() + "}", "${" + other() + "${"})
+	default: // the characters alone
+		return pick(r, c16Stray)
+	}
+}
 
 func c16Key(r *rand.Rand) string {
 	n := 1 + r.Intn(4)
@@ -59,6 +105,18 @@ func c16Key(r *rand.Rand) string {
 
 func c16IsPrefix(a, b string) bool { // a is a proper dotted prefix of b
 	return len(a) < len(b) && strings.HasPrefix(b, a+".")
+}
+
+// c16SiblingPrefix: some key's parent path is a plain string prefix, but not a dotted prefix, of
+// the key that follows it in sorted order (app.db.port, app.dbpool.size).
+func c16SiblingPrefix(sorted []string) bool {
+	for i := 0; i+1 < len(sorted); i++ {
+		j := strings.LastIndex(sorted[i], ".")
+		if j > 0 && strings.HasPrefix(sorted[i+1], sorted[i][:j]) && !strings.HasPrefix(sorted[i+1], sorted[i][:j+1]) {
+			return true
+		}
+	}
+	return false
 }
 
 func c16PrefixFree(keys []string) bool {
@@ -117,8 +175,24 @@ func c16Gen(r *rand.Rand, mode int) c16KV {
 	}
 	r.Shuffle(len(keys), func(i, j int) { keys[i], keys[j] = keys[j], keys[i] })
 	out := c16KV{Pairs: [][2]string{}}
+	expr := r.Intn(3) == 0 // one case out of three has values with placeholder syntax
 	for _, k := range keys {
-		out.Pairs = append(out.Pairs, [2]string{k, c16Vals[r.Intn(len(c16Vals))]})
+		v := c16Vals[r.Intn(len(c16Vals))]
+		if expr && r.Intn(2) == 0 {
+			v = c16ExprVal(r, keys, k)
+		}
+		out.Pairs = append(out.Pairs, [2]string{k, v})
+	}
+	if expr && len(keys) >= 2 && r.Intn(3) == 0 {
+		// a ring of 2-3 keys, each naming the next one
+		n := 2 + r.Intn(2)
+		if n > len(keys) {
+			n = len(keys)
+		}
+		idx := r.Perm(len(keys))[:n]
+		for i, j := range idx {
+			out.Pairs[j][1] = c16Wrap(r, "${"+out.Pairs[idx[(i+1)%n]][0]+"}")
+		}
 	}
 	return out
 }
@@ -138,24 +212,29 @@ func c16Run(c *Ctx) {
 		c.Do("kv", c16Gen(r, 2))
 	}
 	if c.Thorough() && !c.searchMode {
-		u := []string{"a", "b", "a.b", "a.c", "a.b.c", "b.a", "a.b.c.d"}
-		c.Note("exhaustive scope: all %d subsets of %v, two line orders", 1<<len(u), u)
-		for mask := 0; mask < 1<<len(u); mask++ {
-			var ps [][2]string
-			for i, k := range u {
-				if mask&(1<<i) != 0 {
-					ps = append(ps, [2]string{k, fmt.Sprint(i)})
+		for _, u := range [][]string{
+			{"a", "b", "a.b", "a.c", "a.b.c", "b.a", "a.b.c.d"},
+			// segments related by string prefix only, on both sides of '.' in byte order
+			{"a.b", "a.b.x", "a.bc", "a-b.x", "a1", "ab.x", "abc"},
+		} {
+			c.Note("exhaustive scope: all %d subsets of %v, two line orders", 1<<len(u), u)
+			for mask := 0; mask < 1<<len(u); mask++ {
+				var ps [][2]string
+				for i, k := range u {
+					if mask&(1<<i) != 0 {
+						ps = append(ps, [2]string{k, fmt.Sprint(i)})
+					}
 				}
+				if ps == nil {
+					ps = [][2]string{}
+				}
+				c.Do("kv", c16KV{Pairs: ps})
+				rev := make([][2]string, len(ps))
+				for i := range ps {
+					rev[len(ps)-1-i] = ps[i]
+				}
+				c.Do("kv", c16KV{Pairs: rev})
 			}
-			if ps == nil {
-				ps = [][2]string{}
-			}
-			c.Do("kv", c16KV{Pairs: ps})
-			rev := make([][2]string, len(ps))
-			for i := range ps {
-				rev[len(ps)-1-i] = ps[i]
-			}
-			c.Do("kv", c16KV{Pairs: rev})
 		}
 	}
 }
@@ -251,6 +330,15 @@ func c16Eval(c *Ctx, kind string, raw []byte) {
 		c.Dist("keys:conflicting")
 	}
 	c.Dist(fmt.Sprintf("keys:n=%d", len(keys)))
+	if c16SiblingPrefix(keys) {
+		c.Dist("keys:sibling-segment-is-string-prefix-of-next")
+	}
+	for _, k := range keys {
+		if strings.ContainsAny(kv[k], "${}") {
+			c.Dist("values:with-$-{-}")
+			break
+		}
+	}
 	var sb strings.Builder
 	for _, e := range p.Pairs {
 		sb.WriteString(e[0] + "=" + e[1] + "\n")
@@ -330,6 +418,13 @@ func c16Eval(c *Ctx, kind string, raw []byte) {
 				}
 			}
 		}
+		// --- "building a document from such a flat map does the same": on a conflict-free set
+		// FromProperties(kv), FromReader(render(kv)) and FromMap(Unflatten(kv)) are one document
+		if prefixFree && stable {
+			c.Direct("FromProperties(kv)==FromReader(render(kv))", canon(propsW) == canon(readerW), map[string]any{"fromProperties": propsW, "fromReader": readerW})
+			viaMap := nodeWire(dom.Builder().FromMap(utils.Unflatten(kvAny())))
+			c.Direct("FromProperties(kv)==FromMap(Unflatten(kv))", canon(propsW) == canon(viaMap), map[string]any{"fromProperties": propsW, "fromMap(unflatten)": viaMap})
+		}
 		// --- k8s.DecodeEmbeddedProps on a ConfigMap holding the same pairs
 		firstE := ""
 		for i := 0; i < 20; i++ {
@@ -357,8 +452,13 @@ func c16Eval(c *Ctx, kind string, raw []byte) {
 			c.Dist("unstable-build")
 		}
 		// --- the library's view of the text (contract of the `load` parameter)
-		if lp, err := properties.Load([]byte(text), properties.UTF8); err == nil {
+		// Load also runs a self-check of ${…} expressions and reports its failure next to a fully
+		// usable result; the raw pairs of Map() are the contract, whatever that check says.
+		if lp, err := properties.Load([]byte(text), properties.UTF8); lp != nil {
 			loadPairs = c16PairsWire(lp.Map())
+			if err != nil {
+				c.Dist("values:expansion-check-fails")
+			}
 		}
 		// --- encoders: EncoderFn (directly and through the provider), DomEncoderFn
 		// An earlier encode of an unrelated map whose writer failed must leave no trace in a later
@@ -435,6 +535,53 @@ func c16Eval(c *Ctx, kind string, raw []byte) {
 	c.Corr("parse", loadPairs, m["parse"])
 	c.Corr("encode", encPairs, m["encode"])
 	c.Corr("domEncode", domEncPairs, m["domEncode"])
+}
+
+// c16Shrink proposes smaller key/value sets, always as well-formed pairs: one pair less, then per
+// pair the empty value, a key with one segment less, a key / value with one character less.
+func c16Shrink(_ string, raw []byte) [][]byte {
+	var p c16KV
+	if json.Unmarshal(raw, &p) != nil {
+		return nil
+	}
+	var out [][]byte
+	add := func(q c16KV) {
+		if b, err := json.Marshal(q); err == nil && len(b) < len(raw) {
+			out = append(out, b)
+		}
+	}
+	emit := func(i, j int, s string) {
+		q := c16KV{Pairs: make([][2]string, len(p.Pairs))}
+		copy(q.Pairs, p.Pairs)
+		q.Pairs[i][j] = s
+		add(q)
+	}
+	for i := range p.Pairs {
+		q := c16KV{Pairs: [][2]string{}}
+		q.Pairs = append(append(q.Pairs, p.Pairs[:i]...), p.Pairs[i+1:]...)
+		add(q)
+	}
+	for i, e := range p.Pairs {
+		if e[1] != "" {
+			emit(i, 1, "")
+		}
+		if segs := strings.Split(e[0], "."); len(segs) > 1 {
+			for j := range segs {
+				emit(i, 0, strings.Join(append(append([]string{}, segs[:j]...), segs[j+1:]...), "."))
+			}
+		}
+	}
+	for i, e := range p.Pairs {
+		for j := 0; j < 2; j++ {
+			for k := range e[j] {
+				emit(i, j, e[j][:k]+e[j][k+1:])
+			}
+		}
+	}
+	if len(out) > 600 {
+		out = out[:600]
+	}
+	return out
 }
 
 // buf2 hides every method but Read (DecoderFn must work with a plain io.Reader).
